@@ -5,6 +5,7 @@ import (
 	"flag"
 	"fmt"
 	"os"
+	"runtime/debug"
 	"strings"
 
 	"verif/checks"
@@ -17,6 +18,9 @@ func main() {
 	replay := flag.String("replay", "", "replay file")
 	merge := flag.String("merge", "", "merge part files for the property: comma separated part names")
 	flag.Parse()
+	if os.Getenv("GOGC") == "" {
+		debug.SetGCPercent(800) // short-lived garbage dominates; the default setting spends most of the time in GC
+	}
 	if *replay != "" {
 		os.Exit(h.ReplayFile(*replay))
 	}
